@@ -202,7 +202,7 @@ def _sweep(names, root, path, results, head, wt):
 def table():
     """Rewrites the table between the sweep markers of DESIGN.md from seeded/RESULTS.json."""
     res = json.load(open(os.path.join(VERIF, "seeded", "RESULTS.json")))
-    rows = ["| change | property | result of the property's quick check | first failure reported / note |", "|---|---|---|---|"]
+    rows = ["| change | property | /repo head | result of the property's quick check | first failure reported / note |", "|---|---|---|---|---|"]
     for name in sorted(res):
         r = res[name]
         note = r.get("first_failure") or r.get("detail") or ""
@@ -218,10 +218,13 @@ def table():
         if r.get("ported"):
             note = "(three-way merged onto the current tree) " + note
         note = note.replace("|", "/")[:260]
-        rows.append("| %s | %s | %s | %s |" % (name, r["property"], r["result"], note))
+        rows.append("| %s | %s | %s | %s | %s |" % (name, r["property"], r.get("repo_head", "?"), r["result"], note))
     n = {k: sum(1 for r in res.values() if r["result"] == k) for k in ("caught", "MISSED", "does-not-apply", "inconclusive")}
-    head = "Last sweep at /repo %s: %d caught, %d missed, %d no longer applicable, %d inconclusive (build failure of the reverse patch).\n\n" % (
-        max((r["repo_head"] for r in res.values()), key=lambda h: sum(1 for x in res.values() if x["repo_head"] == h)), n["caught"], n["MISSED"], n["does-not-apply"], n["inconclusive"])
+    heads = {}
+    for r in res.values():
+        heads[r.get("repo_head", "?")] = heads.get(r.get("repo_head", "?"), 0) + 1
+    head = "Sweep results (each row says at which /repo head it was obtained; %s): %d caught, %d missed, %d no longer applicable, %d inconclusive.\n\n" % (
+        ", ".join("%d at %s" % (v, k) for k, v in sorted(heads.items(), key=lambda kv: -kv[1])), n["caught"], n["MISSED"], n["does-not-apply"], n["inconclusive"])
     p = os.path.join(VERIF, "DESIGN.md")
     s = open(p).read()
     a, b = "<!-- sweep:begin -->", "<!-- sweep:end -->"
